@@ -10,11 +10,15 @@
 (*   Part = "single"  : all display x addr shapes x 0..2 parameters, no LWS *)
 (*          "lws"     : few shapes x every LWS placement (before/after ";", *)
 (*                      before/after "=", leading, trailing)                *)
-(*          "params3" : 3 parameters, all orders of a subset, 2 LWS styles  *)
+(*          "params3" : 3 parameters, all orders of a subset, 4 LWS styles  *)
 (*          "lists"   : 1..3 values, LWS around ","; kinds contacts (ccap), *)
 (*                      pais, nameaddr (first value -> morevalues)          *)
 (*          "listsws" : FINDING sub-slice: LWS between a header parameter   *)
 (*                      and the "," (rejected by the code)                  *)
+(*          "namews"  : STRICT-READING sub-slice: LWS between the display    *)
+(*                      name and "<", Name stated as the name alone (the    *)
+(*                      code documents that Name may carry the trailing     *)
+(*                      white space: every record differs in Name only)     *)
 (*          "inmsg"   : 1..2 From/To/Contact/PAI lines in a header block    *)
 (*                      (headersb) and in a message (msg)                   *)
 (***************************************************************************)
@@ -31,7 +35,7 @@ MkVal(vc) == NAValue(NAHead(vc[1]),
                      IF Len(vc[2]) = 0 THEN <<>> ELSE SubSeq([k \in 1..Len(vc[2]) |-> NAParam(vc[2][k])], 1, Len(vc[2])))
 
 P0(n, v)      == <<n, v, 0, 0, 0, 0>>                                       \* parameter without LWS
-HeadsBr       == {<<0, d, w, u>> : d \in 1..NNADisp, w \in {0, 1}, u \in {1, 2, 3, 4, 5, 7}} \cup {<<0, 0, 0, u>> : u \in {1, 2, 3, 4, 5, 7}}
+HeadsBr       == {<<0, d, w, u>> : d \in 1..NNADisp, w \in {0, 1}, u \in 1..7} \cup {<<0, 0, 0, u>> : u \in 1..7}
 HeadsBare     == {<<1, 0, 0, u>> : u \in 1..4}
 HeadsAll      == HeadsBr \cup HeadsBare
 HeadStar      == <<2, 0, 0, 0>>
@@ -39,13 +43,12 @@ HdSip         == <<0, 0, 0, 1>>                 \* <sip:bob@b.example>
 HdBare        == <<1, 0, 0, 1>>                 \* sip:bob@b.example
 HdQParams     == <<0, 3, 1, 5>>                 \* "Bob" <sip:a@b;transport=tcp?h=v>
 HdTokTel      == <<0, 1, 0, 3>>                 \* Bob<tel:+1-408>
-HdQescX       == <<0, 4, 0, 4>>                 \* "B \" , ; < > o\\"<x>
 Heads4        == {HdSip, HdBare, HdQParams, HdTokTel}
 Heads3        == {HdSip, HdBare, HdQParams}
 
 \* ---- slice "single"
 Params1All == {P0(n, v) : n \in 1..NNAPName, v \in 1..NNAPVal}
-Params2Sub == {P0(n, v) : n \in 1..NNAPName, v \in {1, 3, 4, 5, 7}}
+Params2Sub == {P0(n, v) : n \in 1..11, v \in {1, 3, 4, 5, 7}}
 \* NOTE (TLC): the big choice sets are written inside the Init disjuncts (state level): TLC evaluates every constant
 \* level definition at start-up, once per worker, whatever Part is, and its set union is quadratic
 InitSingle ==
@@ -82,7 +85,7 @@ Sty(nv, s) == CASE s = 0 -> <<nv[1], nv[2], 0, 0, 0, 0>> [] s = 1 -> <<nv[1], nv
                 [] s = 2 -> <<nv[1], nv[2], 3, 0, 0, 2>> [] s = 3 -> <<nv[1], nv[2], 0, 3, 2, 0>>
 InitParams3 ==
   c \in {<<"na", h, 0, 0, <<hd, <<Sty(t[1], s), Sty(t[2], s), Sty(t[3], s)>>>>>> :
-      h \in {2, 8}, hd \in Heads3, s \in {0, 1},
+      h \in {2, 8}, hd \in Heads3, s \in 0..3,
       t \in {u \in P3Pool \X P3Pool \X P3Pool : u[1] # u[2] /\ u[1] # u[3] /\ u[2] # u[3]}}
 
 \* ---- value pool of the list slices (lazy)
@@ -162,8 +165,11 @@ MkLine(i) == LET p == LinePool(i)  ml == MkList(<<0, p.vals, p.seps, 0>>) IN
                [line |-> GenHdrLine(p.name, p.ws1, p.ws2, ml.txt, p.ws3, p.term), h |-> p.h, ml |-> ml]
 \* at most one From and one To line per message (RFC 3261: exactly one; the code keeps the first)
 LineSeqOk(idx) == \A h \in {1, 2} : Cardinality({k \in 1..Len(idx) : LinePool(idx[k]).h = h}) <= 1
-LineSeqs == {<<i>> : i \in 1..NLines} \cup {<<i, j>> : i \in 1..NLines, j \in 1..NLines}
+\* (the last two: 12 and 14 Contact values in 3 / 4 headers -- more than the 10 elements of the built-in array of a message)
+LineSeqs == {<<i>> : i \in 1..NLines} \cup {<<i, j>> : i \in 1..NLines, j \in 1..NLines} \cup {<<13, 13, 13>>, <<13, 10, 13, 12>>}
             \cup {<<i, j, k>> : i \in {1, 9, 12, 15}, j \in {5, 8, 13, 16, 18}, k \in {6, 10, 11, 14, 17}}
+InitNameWs == c \in {<<"nastrict", h, 0, 0, <<<<0, d, w, u>>, ps>>>> :
+                        h \in {1, 2, 8, 13}, d \in 1..NNADisp, w \in 1..6, u \in {1, 5}, ps \in {<<>>, <<P0(1, 3)>>}}
 LineSeqsOk == {x \in LineSeqs : LineSeqOk(x)}
 InitInMsg ==
   \/ c \in {<<"headersb", cc[1], cc[2], 0, idx>> : cc \in {<<4, 0>>, <<4, 1>>, <<4, 4>>, <<1, 2>>}, idx \in LineSeqsOk}
@@ -175,6 +181,7 @@ Init == \/ (Part = "single" /\ InitSingle)
         \/ (Part = "lists" /\ InitLists)
         \/ (Part = "listsws" /\ InitListsWs)
         \/ (Part = "inmsg" /\ InitInMsg)
+        \/ (Part = "namews" /\ InitNameWs)
 Next == FALSE /\ UNCHANGED c
 Spec == Init /\ [][Next]_c
 
@@ -187,6 +194,10 @@ Rec(kind, flags, hcap, ccap, wire, offs, err, obs) ==
 RecNA(h, lead, trail, vc) ==
   LET g == MkVal(vc)  l == NAWs(lead)  w == l \o g.txt \o NAWs(trail) \o TAIL
   IN Rec("nameaddr", h, -1, -1, w, Len(w) - 1, OK, NAObs(g, h, Len(l)))
+\* strict reading of Name (sub-slice "namews"): the display name alone, whatever follows it
+RecNAStrict(h, lead, trail, vc) ==
+  LET g == MkVal(vc)  l == NAWs(lead)  w == l \o g.txt \o NAWs(trail) \o TAIL
+  IN Rec("nameaddr", h, -1, -1, w, Len(w) - 1, OK, [Name |-> ShiftSpan(g.Name, Len(l))] @@ NAObs(g, h, Len(l)))
 \* first value of a list of a multi-value header kind: "morevalues", offset after the comma
 RecMore(h, lc) ==
   LET ml == MkList(lc)  w == ml.txt \o TAIL
@@ -227,6 +238,7 @@ RecInMsg(kind, hcap, ccap, fl, idx) ==
          [HL |-> [N |-> m.obs.HL.N, Hdrs |-> m.obs.HL.Hdrs]] @@ NAOpt("PV", pv # NAE0, pv))
 
 RecOf(x) == CASE x[1] = "na" -> RecNA(x[2], x[3], x[4], x[5])
+              [] x[1] = "nastrict" -> RecNAStrict(x[2], x[3], x[4], x[5])
               [] x[1] = "more" -> RecMore(x[2], x[3])
               [] x[1] = "contacts" -> RecContacts(x[2], x[3])
               [] x[1] = "pais" -> RecPAIs(x[3])
